@@ -54,7 +54,12 @@ func sanitize(s string) string {
 }
 
 func typeKey(t types.Type) string {
-	return types.TypeString(t, func(p *types.Package) string { return p.Name() })
+	return types.TypeString(t, func(p *types.Package) string {
+		if p.Path() == thePkgPath {
+			return ""
+		}
+		return p.Name()
+	})
 }
 
 func isEmptyStruct(t types.Type) bool {
@@ -347,7 +352,8 @@ func (w *World) prelude() string {
 		b.WriteString("))\n")
 	}
 	b.WriteString("))\n")
-	b.WriteString("(define-fun sliceWF ((s Slice) (a Int)) Bool (and (<= 0 (s_arr s)) (< (s_arr s) a) (<= 0 (s_off s)) (<= 0 (s_len s)) (<= (s_len s) (s_cap s)) (=> (= (s_arr s) 0) (= (s_cap s) 0))))\n")
+	b.WriteString("(declare-fun rtype (Int) Int)\n")
+	b.WriteString("(define-fun sliceWF ((s Slice) (a Int)) Bool (and (<= 0 (s_arr s)) (< (s_arr s) a) (<= 0 (s_off s)) (<= 0 (s_len s)) (<= (s_len s) (s_cap s)) (<= (s_cap s) 9223372036854775807) (<= (+ (s_off s) (s_cap s)) 9223372036854775807) (=> (= (s_arr s) 0) (= (s_cap s) 0))))\n")
 	b.WriteString("(define-fun valWF ((v Val) (a Int)) Bool (and true")
 	for _, c := range w.ctorOrder {
 		t := w.ctorType[c]
@@ -356,14 +362,28 @@ func (w *World) prelude() string {
 		}
 		switch w.sortOf(t) {
 		case "Slice":
-			b.WriteString(" (=> ((_ is " + c + ") v) (sliceWF (" + ctorSel(c) + " v) a))")
+			es := w.sortOf(t.Underlying().(*types.Slice).Elem())
+			b.WriteString(fmt.Sprintf(" (=> ((_ is %s) v) (and (sliceWF (%s v) a) (or (= (s_arr (%s v)) 0) (= (rtype (s_arr (%s v))) %d))))", c, ctorSel(c), ctorSel(c), ctorSel(c), w.typeID("[]"+es)))
 		case "Int":
 			if _, isBasic := t.Underlying().(*types.Basic); !isBasic {
-				b.WriteString(" (=> ((_ is " + c + ") v) (and (<= 0 (" + ctorSel(c) + " v)) (< (" + ctorSel(c) + " v) a)))")
+				b.WriteString(fmt.Sprintf(" (=> ((_ is %s) v) (and (<= 0 (%s v)) (< (%s v) a) (or (= (%s v) 0) (= (rtype (%s v)) %d))))", c, ctorSel(c), ctorSel(c), ctorSel(c), ctorSel(c), w.typeID(refTypeKey(t))))
+			}
+		default:
+			// by-value struct payload: bound its pointer fields
+			if st, ok := t.Underlying().(*types.Struct); ok {
+				sn := w.structSortName(t)
+				for i := 0; i < st.NumFields(); i++ {
+					ft := st.Field(i).Type()
+					switch ft.Underlying().(type) {
+					case *types.Pointer, *types.Map, *types.Signature:
+						f := fmt.Sprintf("(%s_%s (%s v))", sn, st.Field(i).Name(), ctorSel(c))
+						b.WriteString(fmt.Sprintf(" (=> ((_ is %s) v) (and (<= 0 %s) (< %s a) (or (= %s 0) (= (rtype %s) %d))))", c, f, f, f, f, w.typeID(refTypeKey(ft))))
+					}
+				}
 			}
 		}
 	}
-	b.WriteString("))\n")
+	b.WriteString(" (=> ((_ is VOther) v) (>= (otype v) 0))))\n")
 	// dynamic type tag
 	b.WriteString("(define-fun dyn ((v Val)) Int")
 	depth := 0
@@ -373,7 +393,7 @@ func (w *World) prelude() string {
 		b.WriteString(fmt.Sprintf(" (ite ((_ is %s) v) %d", c, i+1))
 		depth++
 	}
-	b.WriteString(" (+ 1000 (otype v))")
+	b.WriteString(" (+ 1000 (ite (>= (otype v) 0) (otype v) (- (otype v))))")
 	b.WriteString(strings.Repeat(")", depth) + ")\n")
 	b.WriteString("(declare-fun cmpOther (Int) Bool)\n")
 	// comparable: dynamic type supports == without panicking
